@@ -106,6 +106,13 @@ SHAPES = {
     "dict-key-parens-delete": ["assert {'b': 2} == snapshot({('a'): 1, 'b': 2})"],
     "dict-value-parens-only-entry": ["assert {'a': 'xy', 'c': 1} == snapshot({'a': ('x' 'y')})"],
     "list-parens-mixed": ["assert [1, 3] == snapshot([(1), 2, (3)])"],
+    # non-ASCII text on the line of the edited elements (character columns vs. byte offsets), with sibling inserts / deletes
+    "unicode-replace-and-delete": ['assert ["äöü", 1, 5] == snapshot(["äöü", 2, 5, 6])'],
+    "unicode-replace-and-insert": ['assert ["🐍", 1, 5, 6] == snapshot(["🐍", 2, 5])'],
+    "unicode-dict-replace-delete": ['assert {"ä": 1, "b": 3} == snapshot({"ä": 2, "b": 3, "c": 4})'],
+    "unicode-call-replace-insert": ['assert DC(x="é", y=2, z=[1]) == snapshot(DC(x="é", y=3))'],
+    "unicode-before-call": ['x = "äöü🐍"; assert [1, 4] == snapshot([2, 3, 4])'],
+    "unicode-inner-snapshot": ['assert ["ß", 2] == snapshot(["ß", snapshot(1 + 1), 3])'],
     # snapshot() evaluated where no source node can be found (code from a string): nothing can be rewritten, the session must still finish
     "nosrc-eq-ok": ["s = eval('snapshot(5)')", "assert 5 == s"],
     "nosrc-eq-fix": ["s = eval('snapshot(5)')", "assert 6 == s"],
